@@ -145,7 +145,7 @@ func (s *Sim) opConnect(op *Op) {
 				dup = 1
 			}
 			e := &Expect{Kind: rc.PUBLISH, PID: o.PID, Out: o, Msg: o.M, Vars: o.Vars, Retain: o.Retain, Dup: dup, Rule: "C09/not-resent-after-reconnect",
-				Attrs: map[string]string{"what": "PUBLISH", "deferred": fmt.Sprint(o.Deferred), "sent_before": fmt.Sprint(o.Sent)}, What: fmt.Sprintf("redelivery of %s (id %d)", o.M.ID, o.PID), Step: m.Step, SP: -1}
+				Attrs: map[string]string{"what": "PUBLISH", "was_deferred": fmt.Sprint(o.WasDeferred), "sent_before": fmt.Sprint(o.Sent)}, What: fmt.Sprintf("redelivery of %s (id %d)", o.M.ID, o.PID), Step: m.Step, SP: -1}
 			sl.expect(e)
 		}
 	}
@@ -289,6 +289,19 @@ func (s *Sim) opPublish(op *Op) {
 	pid := op.PID
 	if op.QoS > 0 && pid == 0 {
 		pid = sl.allocPID()
+		if op.Collide {
+			// deliberately reuse an id that the broker has outstanding towards this client
+			ids := make([]int, 0, len(sl.inflight))
+			for k := range sl.inflight {
+				ids = append(ids, int(k))
+			}
+			sort.Ints(ids)
+			if len(ids) > 0 {
+				pid = uint16(ids[0])
+				sess.Taint["pid_collision"] = true
+				m.count("own_publish_with_colliding_id")
+			}
+		}
 	}
 	p := &rc.Packet{Type: rc.PUBLISH, Version: sl.Ver, Topic: op.Topic, QoS: op.QoS, Retain: op.Retain, Dup: op.Dup, PacketID: pid}
 	// retransmission of an unreleased QoS 2 publish?
@@ -607,6 +620,7 @@ func (s *Sim) oweVars(t *Session, msg *Msg, vars []variant, retain []bool, retai
 			}
 			if busy >= int(sl.RecvMax) {
 				o.Deferred = true
+				o.WasDeferred = true
 				e.Optional = true
 				t.Taint["deferred"] = true
 				m.count("deferred_by_receive_maximum")
